@@ -97,6 +97,12 @@ class Env:
     def has(self, n):
         return self._f.locals.get(n, UNBOUND) is not UNBOUND
 
+    def ghost(self, n):
+        return self._f.locals["ghost:" + n]
+
+    def set_ghost(self, n, v):
+        self._f.locals["ghost:" + n] = v
+
 
 class Interp:
     def __init__(self, program=None):
